@@ -38,6 +38,16 @@ pub fn alphabet() -> Alphabet {
     for i in 0..12u32 {
         frames.push(df11(5, 0x700000 + 0x1111 * i, 0));
     }
+    // look-alikes of frame 0 (indices 16..=20): the same bytes with a trailer, zero-padded to 14 bytes, doubled, and the
+    // empty and the all-zero frame. A frame is an opaque key: none of these is "the same frame" as another.
+    let f0 = frames[0].clone();
+    let mut trailer = f0.clone();
+    trailer.push(0x00);
+    let mut padded = f0.clone();
+    padded.resize(14, 0);
+    let mut doubled = f0.clone();
+    doubled.extend_from_slice(&f0);
+    frames.extend([trailer, padded, doubled, Vec::new(), vec![0u8; 14]]);
     let decodable = frames.iter().map(|f| Message::from_bytes((f, 0)).is_ok()).collect();
     Alphabet { frames, decodable }
 }
@@ -508,7 +518,7 @@ fn symbols(frames: &[u8], rxs: &[u8], stamps: &[u64]) -> Vec<Arr> {
 
 pub fn run(ctx: &Ctx, rep: &Report) {
     let al = alphabet();
-    if al.decodable[..4] != [true, true, true, false] || al.decodable[4..].iter().any(|d| !d) {
+    if al.decodable[..4] != [true, true, true, false] || al.decodable[4..16].iter().any(|d| !d) {
         rep.violation("harness:alphabet", format!("frame alphabet decodability is {:?}, expected [true,true,true,false]", al.decodable), json!({}));
         return;
     }
@@ -554,6 +564,7 @@ pub fn run(ctx: &Ctx, rep: &Report) {
             ("Unix-time stamps: 2 frames+undecodable, any order", vec![0, 1, 3], vec![0, 1], vec![0, 250, 450, 500, 1000], vec![0, 250, 450], 5, false, unix),
             ("Unix-time stamps, two metadata entries on receiver 2: 3 frames, non-decreasing", vec![0, 1, 2], vec![0, 1], vec![0, 250, 450, 500, 900, 10_000], vec![250, 450], 5, true, multi),
             ("3 receivers, 2 frames, any order", vec![0, 1], vec![0, 1, 2], vec![0, 250, 450, 1000], vec![0, 450], 5, false, multi),
+            ("look-alike frames (trailer, zero-padded, doubled, empty, all-zero), any order", vec![0, 16, 17, 18, 19, 20], vec![0, 1], vec![0, 250, 450, 1000], vec![0, 250, 450], 4, false, plain),
         ]
     } else {
         vec![
@@ -562,6 +573,7 @@ pub fn run(ctx: &Ctx, rep: &Report) {
             ("1 frame + undecodable, any order, deep", vec![0, 3], vec![0], vec![0, 250, 450, 1000], vec![0, 450, NEVER], 6, false, plain),
             ("Unix-time stamps: 2 frames+undecodable, any order", vec![0, 1, 3], vec![0, 1], vec![0, 250, 450, 500, 1000], vec![0, 450], 4, false, unix),
             ("Unix-time stamps, two metadata entries on receiver 2: 3 frames, non-decreasing", vec![0, 1, 2], vec![0, 1], vec![0, 250, 450, 500, 10_000], vec![250, 450], 4, true, multi),
+            ("look-alike frames (trailer, zero-padded, doubled, empty, all-zero), any order", vec![0, 16, 17, 18, 19, 20], vec![0, 1], vec![0, 250, 450, 1000], vec![0, 450], 3, false, plain),
         ]
     };
     for (name, frames, rxs, stamps, windows, maxlen, mono, var) in plans {
